@@ -12,6 +12,7 @@
    by the differential search in harness/props/c04.py, not by these theorems. *)
 From Coq Require Import List String Ascii Bool Arith ZArith Permutation Sorted.
 From PV Require Import Canon.Model Canon.SortLemmas Canon.Proofs Canon.ErrorProofs.
+From PV Require Loader.Model Loader.Proofs.
 Import ListNotations.
 Local Open Scope string_scope.
 
@@ -156,6 +157,69 @@ Proof.
   split; [apply perm_swap|]. vm_compute. discriminate.
 Qed.
 Print Assumptions errors_order_sensitive.
+
+(* ---- (c) history: load_pytd.Loader's caches (coq/Loader/Model.v) ------------------------------ *)
+Module LoaderHistory.
+Import Loader.Model Loader.Proofs.
+
+(* The memo of import_name adds no history dependence of its own: if an uncached import from every reachable
+   module map answers like one from the empty map (and keeps the map reachable), then every answer of every
+   history of import_name calls is the answer of a fresh loader. *)
+Theorem memo_layer_history_independent_partial :
+  forall (fuel : nat) (U : universe) (Good : mods -> Prop),
+  Good [] ->
+  (forall n s, Good s -> Good (fst (import_slow fuel U n s)) /\
+                         snd (import_slow fuel U n s) = snd (import_slow fuel U n [])) ->
+  forall ops : list name, run fuel U fresh ops = fresh_answers fuel U ops.
+Proof. exact memo_layer_history_independent_lemma. Qed.
+Print Assumptions memo_layer_history_independent_partial.
+
+(* ... and the full statement is refuted by the faithful model of the module map, three ways (each reproduced on
+   the real Loader by the harness and listed as a finding): *)
+(* a module loaded earlier shadows a class of the same name: fresh OK, reused BadDependencyError *)
+Theorem loader_history_independent_refuted_shadowing :
+  exists (U : universe) (ops : list name),
+    Forall (fun r => r <> OOut) (run 10 U fresh ops) /\ run 10 U fresh ops <> fresh_answers 10 U ops.
+Proof. exists U_shadow, [[0; 10]; [1]]. exact shadow_refuted. Qed.
+Print Assumptions loader_history_independent_refuted_shadowing.
+
+(* the dependency dropped by collect_dependencies: fresh BadDependencyError, reused OK *)
+Theorem loader_history_independent_refuted_own_class :
+  exists (U : universe) (ops : list name),
+    Forall (fun r => r <> OOut) (run 10 U fresh ops) /\ run 10 U fresh ops <> fresh_answers 10 U ops.
+Proof. exists U_own, [[0; 12]; [0]]. exact own_class_refuted. Qed.
+Print Assumptions loader_history_independent_refuted_own_class.
+
+(* a member of an import cycle linked inside a FAILED import stays cached: fresh BadDependencyError, reused OK *)
+Theorem loader_history_independent_refuted_failed_cycle :
+  Forall (fun r => r <> OOut) (run 10 U_cycle fresh [[0]; [1]]) /\
+  run 10 U_cycle fresh [[0]; [1]] = [OErr; OOk (mkEntry false [] [(0, TCls [0] 12)])] /\
+  fresh_answers 10 U_cycle [[0]; [1]] = [OErr; OErr].
+Proof. exact cycle_refuted. Qed.
+Print Assumptions loader_history_independent_refuted_failed_cycle.
+
+(* what IS unconditional: a memoised answer (an AST or "no such module") is repeated verbatim whatever happens to
+   the module map in between; errors are never memoised *)
+Theorem cached_answer_is_repeated : forall fuel U st n st' r,
+  import_name fuel U st n = (st', r) -> (r = ONone \/ exists e, r = OOk e) ->
+  forall mods', import_name fuel U (mkState mods' (st_cache st')) n = (mkState mods' (st_cache st'), r).
+Proof. exact cached_answer_is_repeated_lemma. Qed.
+Print Assumptions cached_answer_is_repeated.
+
+(* where history enters: an entry of _modules short-circuits the whole load *)
+Theorem existing_entry_short_circuits_load : forall fuel U n s e,
+  lookup n s = Some e -> load (Datatypes.S fuel) U n s = (s, ROk e).
+Proof. exact load_existing_lemma. Qed.
+Print Assumptions existing_entry_short_circuits_load.
+
+(* non-vacuity: a cyclic three-module universe on which a history of five requests is answered like fresh loaders *)
+Example ex_history_independent_instance :
+  let U := [([0], mkRaw true [10] [(0, ([1], 11))]); ([0; 12], mkRaw false [11] [(0, ([0], 10))]);
+            ([1], mkRaw false [11] [(0, ([0; 12], 11)); (1, ([0], 10))])] in
+  run 10 U fresh [[1]; [0; 12]; [9]; [0]; [1]] = fresh_answers 10 U [[1]; [0; 12]; [9]; [0]; [1]] /\
+  nth 0 (run 10 U fresh [[1]]) ONone = OOk (mkEntry false [11] [(0, TCls [0; 12] 11); (1, TCls [0] 10)]).
+Proof. split; vm_compute; reflexivity. Qed.
+End LoaderHistory.
 
 (* ---- non-vacuity --------------------------------------------------------------------------- *)
 
